@@ -2,15 +2,19 @@
 import vlib
 from vlib import hx
 
-RULE = ("histories of allow/deny/prune/clock/isdenied/lists over <=5 ids (incl. the empty id) and <=8 expiry values "
+RULE = ("TRANSLATOR TIE: internal/deny/deny.go is translated to Lean on every run (Relay/Extracted/GenDeny.lean) and proved equal to the "
+        "register model method by method for all states, arguments and map iteration orders (Relay/Tie/Deny.lean); mode gendeny runs the "
+        "translated code itself against the real store (differential test of the translator). CORRESPONDENCE (mode deny): histories of allow/deny/prune/clock/isdenied/lists over <=5 ids (incl. the empty id) and <=8 expiry values "
         "around the clock (equal-to-now boundaries) drawn from one PRNG; a case is non-trivial when it contains a deny, "
         "an allow and a prune that removed something or a re-decision of an id; distinct = distinct op sequence")
-ASSUMPTIONS = ["each deny.Store method is one atomic step (C12)", "Go map iteration order is unobservable (lists are compared as sets)"]
+ASSUMPTIONS = ["translator vocabulary (Relay/Base/GoLite.lean): int64 as unbounded Int, pointer receiver as threaded value, mutex calls not data", "each deny.Store method is one atomic step (C12)", "Go map iteration order is unobservable (lists are compared as sets)"]
 
 P = "Relay.Props.C10"
 THEOREMS = [(f"Deny.{n}", P) for n in
             ["reg_disjoint", "reg_refines_cell", "reg_latest_wins_deny", "reg_latest_wins_allow", "prune_exact",
-             "only_own_expiry_removes", "lists_exact", "bad_params_noop", "good_params_act", "step_inv"]]
+             "only_own_expiry_removes", "lists_exact", "bad_params_noop", "good_params_act", "step_inv"]] + \
+           [(f"TieDeny.{n}", "Relay.Tie.Deny") for n in
+            ["allow_tie", "deny_tie", "isDenied_tie", "setNow_tie", "prune_tie", "getDenyList_tie", "getAllowList_tie", "coverage"]]
 
 IDS = ["b1", "b2", "b3", "bk-4", ""]
 
@@ -84,5 +88,15 @@ class DenyMode(vlib.Mode):
         return outl
 
 
+class GenDenyMode(DenyMode):
+    """the same histories; the model side is the Lean TRANSLATION of deny.go (not the hand model)"""
+    name = "gendeny"
+    impl_mode = "deny"
+    model_mode = "gendeny"
+
+    def corpus(self):
+        return DenyMode().corpus()
+
+
 def modes(tier):
-    return [DenyMode()]
+    return [DenyMode(), GenDenyMode()]
